@@ -6,3 +6,4 @@ pub mod biff;
 pub mod ods;
 pub mod xlsb;
 pub mod simple;
+pub mod vba;
